@@ -358,7 +358,7 @@ pub fn run_all(cx: &mut Ctx, args: &Args, rng: &mut Rng) {
     let t0 = std::time::Instant::now();
     let dbg = std::env::var("ZV_DEBUG").is_ok();
     let stage = |what: &str| if dbg { eprintln!("[c10 breadth] {:>8.2}s {}", t0.elapsed().as_secs_f64(), what); };
-    let rounds: u64 = if args.thorough { 6000 } else { 420 };
+    let rounds: u64 = if args.thorough { 24000 } else { 2040 };
     // (cell, operation vocabulary, amounts around the 64-byte thresholds, constructors)
     let fv_copy: &[u64] = &[0, 0, 1, 2, 3, 4, 5, 6, 7, 7, 8, 9, 10, 13, 15, 17, 18, 19, 20, 20, 21, 21, 22, 22, 23, 24];
     let vv_copy: &[u64] = &[0, 0, 1, 5, 7, 8, 9, 10, 11, 16, 20, 20, 21, 21, 22, 23, 24, 25, 25];
